@@ -33,6 +33,9 @@ use std::task::{Context, Poll};
 use std::time::Duration;
 use vh::*;
 
+#[path = "../e2e_attempts.rs"]
+mod e2e;
+
 #[derive(Debug)]
 struct Dummy;
 impl std::fmt::Display for Dummy {
@@ -493,9 +496,26 @@ fn main() {
     let thorough = a.tier == "thorough";
     if let Some(p) = &a.replay {
         for c in read_cases(p) {
+            if e2e::is_e2e_case(&c) {
+                e2e::replay_case(&c, &mut out);
+                continue;
+            }
             let o = run_case(&c, 48);
             out.case(&c, &o);
         }
+        out.finish();
+        return;
+    }
+    // E13: end-to-end scenarios (real Session against the mock cluster), see e2e_attempts.rs
+    let e2e_n: u64 = std::env::var("E2E_N").ok().and_then(|s| s.parse().ok()).unwrap_or(if !thorough {
+        260
+    } else if a.n >= 2_000_000 {
+        2500
+    } else {
+        600 // the orchestrator's search rounds
+    });
+    e2e::run(e2e::Mix::C13, a.seed, e2e_n, &a.tier, &mut out);
+    if std::env::var("E2E_ONLY").is_ok() {
         out.finish();
         return;
     }
